@@ -5308,3 +5308,1040 @@ Proof.
     eexists. split; [simpl; rewrite Htx6; reflexivity|].
     simpl. rewrite Hck'. repeat split.
 Qed.
+
+(* ================================================================== *)
+(* 20. lift (1): the range invariant and parity over whole runs        *)
+(* ================================================================== *)
+
+Definition states_in_range (sch : schema) (l : list nat) : bool :=
+  forallb (fun x => x <? length sch) l.
+Definition calls_in_range (sch : schema) (cs : list api_call) : bool :=
+  forallb (fun c => states_in_range sch (ac_states c)) cs.
+Definition actions_in_range (sch : schema) (acts : list haction) : bool :=
+  forallb (fun a => calls_in_range sch (ha_calls a)) acts.
+Definition queue_in_range (sch : schema) (q : list mutation) : bool :=
+  forallb (fun mu => states_in_range sch (mu_called mu)) q.
+
+Lemma states_in_range_iff : forall sch l,
+  states_in_range sch l = true <-> (forall x, In x l -> x < length sch).
+Proof.
+  intros sch l. unfold states_in_range. rewrite forallb_forall. split.
+  - intros H x Hx. apply Nat.ltb_lt. apply H. exact Hx.
+  - intros H x Hx. apply Nat.ltb_lt. apply H. exact Hx.
+Qed.
+
+Lemma states_in_range_uniq : forall sch l,
+  states_in_range sch l = true -> states_in_range sch (uniq l) = true.
+Proof.
+  intros sch l H. apply states_in_range_iff. intros x Hx. rewrite uniq_In in Hx.
+  rewrite states_in_range_iff in H. apply H. exact Hx.
+Qed.
+
+Section RangeInv.
+  Variable sch : schema.
+  Variable ex : nat.
+  Hypothesis ex_in_range : ex < length sch.
+
+  (* static fields and everything that will ever be called is in range *)
+  Definition QR (s : st) : Prop :=
+    sc s = sch /\ exc s = ex /\ queue_in_range sch (queue s) = true
+    /\ actions_in_range sch (actions s) = true.
+
+  Lemma QR_same : forall s s', QR s -> sc s' = sc s -> exc s' = exc s ->
+    queue s' = queue s -> actions s' = actions s -> QR s'.
+  Proof.
+    intros s s' [H1 [H2 [H3 H4]]] A B C D. unfold QR. rewrite A, B, C, D.
+    repeat split; assumption.
+  Qed.
+
+  Lemma queue_mutation_QR : forall s mt states args,
+    QR s -> states_in_range sch states = true ->
+    QR (fst (queue_mutation s mt states args)).
+  Proof.
+    intros s mt states args HQ Hr. unfold queue_mutation.
+    destruct (negb _ && negb args && is_dup _ _ _); simpl; [exact HQ|].
+    destruct HQ as [H1 [H2 [H3 H4]]]. unfold QR. simpl.
+    repeat split; try assumption.
+    unfold queue_in_range in *. rewrite forallb_app, H3. simpl.
+    rewrite states_in_range_uniq by exact Hr. reflexivity.
+  Qed.
+
+  Lemma prepend_mut_QR : forall s mu,
+    QR s -> states_in_range sch (mu_called mu) = true -> QR (prepend_mut s mu).
+  Proof.
+    intros s mu [H1 [H2 [H3 H4]]] Hr. unfold QR, prepend_mut. simpl.
+    repeat split; try assumption. rewrite Hr. exact H3.
+  Qed.
+
+  Lemma nested_add_QR : forall s states args,
+    QR s -> states_in_range sch states = true -> QR (fst (nested_add s states args)).
+  Proof.
+    intros s states args HQ Hr. unfold nested_add.
+    destruct (limit_hit s && _); [exact HQ|].
+    pose proof (queue_mutation_QR s MAdd states args HQ Hr) as H.
+    destruct (queue_mutation s MAdd states args) as [s1 tick]. simpl in H.
+    destruct (tick =? 0)%N; exact H.
+  Qed.
+
+  Lemma nested_remove_QR : forall s states args,
+    QR s -> states_in_range sch states = true -> QR (fst (nested_remove s states args)).
+  Proof.
+    intros s states args HQ Hr. unfold nested_remove.
+    destruct (limit_hit s && _); [exact HQ|].
+    destruct (Nat.eqb _ 0 && _); [exact HQ|].
+    pose proof (queue_mutation_QR s MRemove states args HQ Hr) as H.
+    destruct (queue_mutation s MRemove states args) as [s1 tick]. simpl in H.
+    destruct (tick =? 0)%N; exact H.
+  Qed.
+
+  Lemma nested_set_QR : forall s states args,
+    QR s -> states_in_range sch states = true -> QR (fst (nested_set s states args)).
+  Proof.
+    intros s states args HQ Hr. unfold nested_set.
+    destruct (limit_hit s); [exact HQ|].
+    pose proof (queue_mutation_QR s MSet states args HQ Hr) as H.
+    destruct (queue_mutation s MSet states args) as [s1 tick]. simpl in H.
+    destruct (tick =? 0)%N; exact H.
+  Qed.
+
+  Lemma exc_pair_in_range : forall s, QR s -> states_in_range sch [exc s; exc s] = true.
+  Proof.
+    intros s [_ [H2 _]]. rewrite H2. apply states_in_range_iff.
+    intros x [Hx|[Hx|[]]]; subst x; exact ex_in_range.
+  Qed.
+
+  Lemma nested_api_QR : forall s c,
+    QR s -> states_in_range sch (ac_states c) = true -> QR (fst (nested_api s c)).
+  Proof.
+    intros s c HQ Hr. unfold nested_api. destruct (ac_kind c).
+    - apply nested_add_QR; assumption.
+    - apply nested_remove_QR; assumption.
+    - apply nested_set_QR; assumption.
+    - destruct (mach_is s (ac_states c)); [apply nested_remove_QR | apply nested_add_QR];
+        assumption.
+    - destruct (limit_hit s); [exact HQ|].
+      apply nested_add_QR.
+      + eapply QR_same; [exact HQ| | | |]; reflexivity.
+      + apply (exc_pair_in_range s HQ).
+    - apply prepend_mut_QR; [exact HQ | exact Hr].
+    - apply prepend_mut_QR; [exact HQ | exact Hr].
+  Qed.
+
+  Lemma run_calls_QR : forall cs s,
+    QR s -> calls_in_range sch cs = true -> QR (fst (run_calls s cs)).
+  Proof.
+    induction cs as [|c r IH]; intros s HQ Hr; simpl; [exact HQ|].
+    simpl in Hr. apply andb_true_iff in Hr. destruct Hr as [Hc Hr].
+    pose proof (nested_api_QR s c HQ Hc) as H1.
+    destruct (nested_api s c) as [s1 res]. simpl in H1.
+    pose proof (IH s1 H1 Hr) as H2.
+    destruct (run_calls s1 r) as [s2 rs]. exact H2.
+  Qed.
+
+  Lemma recover_to_err_QR : forall s t k, QR s -> QR (recover_to_err s t k).
+  Proof.
+    intros s t k HQ. unfold recover_to_err.
+    destruct (mem (exc s) _); [exact HQ|].
+    assert (Hr : states_in_range sch [exc s] = true).
+    { destruct HQ as [_ [H2 _]]. rewrite H2. apply states_in_range_iff.
+      intros x [Hx|[]]; subst x; exact ex_in_range. }
+    destruct (is_final_key k).
+    - apply prepend_mut_QR; [|exact Hr].
+      eapply QR_same; [exact HQ| | | |]; reflexivity.
+    - apply prepend_mut_QR; [|exact Hr].
+      eapply QR_same; [exact HQ| | | |]; reflexivity.
+  Qed.
+
+  Lemma actions_hd_tl_range : forall acts,
+    actions_in_range sch acts = true ->
+    calls_in_range sch (ha_calls (hd default_action acts)) = true /\
+    actions_in_range sch (tl acts) = true.
+  Proof.
+    intros acts H. destruct acts as [|a r]; simpl in *; [split; reflexivity|].
+    apply andb_true_iff in H. exact H.
+  Qed.
+
+  Lemma call_bindings_QR : forall bs s t k bi caught inv s1 r,
+    QR s -> call_bindings s t k bs bi caught inv = (s1, r) -> QR s1.
+  Proof.
+    induction bs as [|b rest IH]; intros s t k bi caught inv s1 r HQ Hcb; simpl in Hcb.
+    - inversion Hcb; subst. exact HQ.
+    - destruct (existsb (hkey_eqb k) b); [|eapply IH; eassumption].
+      destruct (loop_dead s).
+      { inversion Hcb; subst. eapply QR_same; [exact HQ| | | |]; reflexivity. }
+      destruct inv.
+      { destruct (is_final_key k); [eapply IH; eassumption|].
+        inversion Hcb; subst. exact HQ. }
+      destruct (actions_hd_tl_range (actions s)) as [Hhd Htl];
+        [destruct HQ as [_ [_ [_ H4]]]; exact H4|].
+      assert (HQ0 : QR (set_actions s (tl (actions s)))).
+      { destruct HQ as [H1 [H2 [H3 _]]]. unfold QR. simpl. repeat split; assumption. }
+      pose proof (run_calls_QR (ha_calls (hd default_action (actions s))) _ HQ0 Hhd) as Hrc.
+      destruct (run_calls (set_actions s (tl (actions s)))
+                  (ha_calls (hd default_action (actions s)))) as [s1' rs].
+      simpl fst in Hrc.
+      match type of Hcb with context [set_hlog s1' (?e0 :: hlog s1')] =>
+        set (s2 := set_hlog s1' (e0 :: hlog s1')) in * end.
+      assert (HQ2 : QR s2) by (eapply QR_same; [exact Hrc| | | |]; reflexivity).
+      destruct (ha_fault (hd default_action (actions s))).
+      + destruct (negb (is_final_key k) && negb (ha_ret (hd default_action (actions s)))).
+        * inversion Hcb; subst. exact HQ2.
+        * eapply IH; eassumption.
+      + pose proof (recover_to_err_QR s2 t k HQ2) as HQ3.
+        destruct (is_final_key k).
+        * eapply IH; eassumption.
+        * inversion Hcb; subst. exact HQ3.
+      + inversion Hcb; subst. exact HQ2.
+  Qed.
+
+  Lemma handle_QR : forall s t k s1 t1 ok, QR s -> handle s t k = (s1, t1, ok) -> QR s1.
+  Proof.
+    intros s t k s1 t1 ok HQ Hh. unfold handle in Hh.
+    destruct (call_bindings s t k (bindings s) 0 false (t_invalid t)) as [s' r] eqn:E.
+    inversion Hh; subst. eapply call_bindings_QR; eassumption.
+  Qed.
+
+  Lemma prepend_auto_QR : forall s, QR s -> QR (prepend_auto s).
+  Proof.
+    intros s HQ. unfold prepend_auto.
+    destruct (auto_candidates (sc s) (active s)) as [|a l] eqn:Ea; [exact HQ|].
+    apply prepend_mut_QR; [exact HQ|]. simpl mu_called. rewrite <- Ea.
+    apply states_in_range_iff. intros x Hx. apply c11a_auto_candidates_In in Hx.
+    destruct HQ as [H1 _]. rewrite <- H1. tauto.
+  Qed.
+
+  Lemma run_tx_QR : forall s mu, QR s -> QR (fst (run_tx s mu)).
+  Proof.
+    intros s mu HQ. destruct (run_tx s mu) as [s' r] eqn:E. simpl.
+    destruct (run_tx_P (fun x _ => QR x)) with (s := s) (mu := mu) (s' := s') (r := r)
+      as [_ HP]; try assumption.
+    - intros x t k x1 t1 ok _ HP Hh. eapply handle_QR; eassumption.
+    - intros x t k x1 t1 ok _ HP Hh. eapply handle_QR; eassumption.
+    - intros x t tg HP; exact HP.
+    - intros x t a b c HP; exact HP.
+    - intros x t e HP. eapply QR_same; [exact HP| | | |]; reflexivity.
+    - intros x t r0 HP. eapply QR_same; [exact HP| | | |]; reflexivity.
+    - intros x t cl ac HP. eapply QR_same; [exact HP| | | |]; reflexivity.
+    - intros x t k HP. eapply QR_same; [exact HP| | | |]; reflexivity.
+    - intros x t HP _. apply prepend_auto_QR. exact HP.
+  Qed.
+
+  Hypothesis refs : refs_ok sch = true.
+
+  (* the whole well-formedness kept by a run *)
+  Definition WF (s : st) : Prop :=
+    QR s /\ parity_ok (clock s) (active s) = true /\ NoDup (active s)
+    /\ length (clock s) = length sch.
+
+  Lemma WF_same_mach : forall s s', WF s -> QR s' ->
+    clock s' = clock s -> active s' = active s -> WF s'.
+  Proof.
+    intros s s' [_ [H2 [H3 H4]]] HQ A B. unfold WF. rewrite A, B.
+    split; [exact HQ|]. split; [exact H2|]. split; [exact H3 | exact H4].
+  Qed.
+
+  Lemma run_tx_WF : forall s mu,
+    WF s -> states_in_range sch (mu_called mu) = true -> WF (fst (run_tx s mu)).
+  Proof.
+    intros s mu [HQ [H2 [H3 H4]]] Hr.
+    pose proof (run_tx_QR s mu HQ) as HQ'.
+    pose proof HQ as [Hsc _].
+    destruct (fault_parity_step_lemma s mu) as [P1 [P2 [P3 _]]]; try assumption.
+    - rewrite Hsc. exact refs.
+    - rewrite Hsc. exact H4.
+    - rewrite Hsc. apply states_in_range_iff. exact Hr.
+    - split; [exact HQ'|]. split; [exact P1|]. split; [exact P2|]. congruence.
+  Qed.
+
+  Lemma drain_WF : forall fuel s first, WF s -> WF (fst (fst (drain fuel s first))).
+  Proof.
+    induction fuel as [|f IH]; intros s first HW; simpl; [exact HW|].
+    destruct (crashed s || hung s); [exact HW|].
+    destruct (queue s) as [|mu rest] eqn:Eq.
+    { eapply WF_same_mach; [exact HW| | |]; try reflexivity.
+      destruct HW as [HQ _]. eapply QR_same; [exact HQ| | | |]; reflexivity. }
+    match goal with |- context [run_tx ?x mu] => set (s1 := x) end.
+    assert (Hmu : states_in_range sch (mu_called mu) = true /\
+                  queue_in_range sch rest = true).
+    { destruct HW as [[_ [_ [H3 _]]] _]. rewrite Eq in H3. simpl in H3.
+      apply andb_true_iff in H3. exact H3. }
+    destruct Hmu as [Hmu Hrest].
+    assert (HW1 : WF s1).
+    { assert (HQ1 : QR s1).
+      { destruct HW as [[A [B [_ D]]] _]. unfold s1.
+        destruct (0 <? mu_qtick mu)%N; unfold QR; simpl; repeat split; assumption. }
+      eapply WF_same_mach; [exact HW | exact HQ1 | |];
+        unfold s1; destruct (0 <? mu_qtick mu)%N; reflexivity. }
+    pose proof (run_tx_WF s1 mu HW1 Hmu) as HW2.
+    destruct (run_tx s1 mu) as [s2 r]. simpl in HW2.
+    apply IH. exact HW2.
+  Qed.
+
+  Lemma process_queue_WF : forall fuel s, WF s -> WF (fst (fst (process_queue fuel s))).
+  Proof.
+    intros fuel s HW. unfold process_queue.
+    destruct (queue s); [exact HW|].
+    pose proof (drain_WF fuel s None HW) as H.
+    destruct (drain fuel s None) as [[s1 first] ok]. exact H.
+  Qed.
+
+  Lemma queue_mutation_WF : forall s mt states args,
+    WF s -> states_in_range sch states = true -> WF (fst (queue_mutation s mt states args)).
+  Proof.
+    intros s mt states args HW Hr.
+    pose proof (queue_mutation_core s mt states args) as [_ [_ [_ [Hc [Ha _]]]]].
+    eapply WF_same_mach; [exact HW | | exact Hc | exact Ha].
+    apply queue_mutation_QR; [destruct HW as [HQ _]; exact HQ | exact Hr].
+  Qed.
+
+  Lemma top_mutation_WF : forall fuel s mt states args,
+    WF s -> states_in_range sch states = true ->
+    WF (fst (fst (top_mutation fuel s mt states args))).
+  Proof.
+    intros fuel s mt states args HW Hr. unfold top_mutation.
+    pose proof (queue_mutation_WF s mt states args HW Hr) as H1.
+    destruct (queue_mutation s mt states args) as [s1 tick]. simpl in H1.
+    destruct (tick =? 0)%N; [exact H1|].
+    pose proof (process_queue_WF fuel s1 H1) as H.
+    destruct (process_queue fuel s1) as [[s2 r] ok]. exact H.
+  Qed.
+
+  Lemma prepend_mut_WF : forall s mu,
+    WF s -> states_in_range sch (mu_called mu) = true -> WF (prepend_mut s mu).
+  Proof.
+    intros s mu HW Hr. eapply WF_same_mach; [exact HW | | reflexivity | reflexivity].
+    apply prepend_mut_QR; [destruct HW as [HQ _]; exact HQ | exact Hr].
+  Qed.
+
+  Lemma top_api_WF : forall fuel s c,
+    WF s -> states_in_range sch (ac_states c) = true -> WF (fst (fst (top_api fuel s c))).
+  Proof.
+    intros fuel s c HW Hr. unfold top_api, top_add, top_remove. destruct (ac_kind c).
+    - destruct (limit_hit s && _); [exact HW | apply top_mutation_WF; assumption].
+    - destruct (limit_hit s && _); [exact HW | apply top_mutation_WF; assumption].
+    - destruct (limit_hit s); [exact HW | apply top_mutation_WF; assumption].
+    - destruct (mach_is s (ac_states c)).
+      + destruct (limit_hit s && _); [exact HW | apply top_mutation_WF; assumption].
+      + destruct (limit_hit s && _); [exact HW | apply top_mutation_WF; assumption].
+    - destruct (limit_hit s); [exact HW|].
+      assert (HW1 : WF (set_fault_flags s (loop_dead s) (hung s) 1)).
+      { eapply WF_same_mach; [exact HW| | |]; try reflexivity.
+        destruct HW as [HQ _]. eapply QR_same; [exact HQ| | | |]; reflexivity. }
+      match goal with |- context [if ?b then _ else _] => destruct b end; [exact HW1|].
+      apply top_mutation_WF; [exact HW1|].
+      destruct HW as [HQ _]. apply (exc_pair_in_range s HQ).
+    - apply process_queue_WF. apply prepend_mut_WF; [exact HW | exact Hr].
+    - apply process_queue_WF. apply prepend_mut_WF; [exact HW | exact Hr].
+  Qed.
+
+  Lemma run_calls_top_WF : forall fuel cs s acc,
+    WF s -> calls_in_range sch cs = true ->
+    Forall (fun c => parity_ok (co_time c) (co_active c) = true) acc ->
+    WF (fst (fst (run_calls_top fuel s cs acc))) /\
+    Forall (fun c => parity_ok (co_time c) (co_active c) = true)
+           (snd (fst (run_calls_top fuel s cs acc))).
+  Proof.
+    intros fuel cs. induction cs as [|c r IH]; intros s acc HW Hr Hacc; simpl.
+    - split; [exact HW|]. apply Forall_rev. exact Hacc.
+    - simpl in Hr. apply andb_true_iff in Hr. destruct Hr as [Hc Hr].
+      destruct (crashed s || hung s); [split; [exact HW | apply Forall_rev; exact Hacc]|].
+      pose proof (top_api_WF fuel s c HW Hc) as H1.
+      destruct (top_api fuel s c) as [[s1 res] ok]. simpl in H1.
+      destruct (crashed s1 || hung s1); [split; [exact H1 | apply Forall_rev; exact Hacc]|].
+      assert (Hacc' : Forall (fun c0 => parity_ok (co_time c0) (co_active c0) = true)
+                ({| co_result := res; co_time := clock s1; co_active := active s1;
+                    co_qtick := qtick s1; co_ntx := length (txs s1);
+                    co_err := err_code s1 |} :: acc)).
+      { constructor; [|exact Hacc]. simpl. destruct H1 as [_ [P _]]. exact P. }
+      destruct ok.
+      + apply IH; assumption.
+      + split; [exact H1 | exact (Forall_rev Hacc')].
+  Qed.
+End RangeInv.
+
+Lemma init_st_WF : forall sch tp hl ex bs ql acts,
+  actions_in_range sch acts = true ->
+  WF sch ex (init_st sch tp hl ex bs ql acts).
+Proof.
+  intros sch tp hl ex bs ql acts Ha. unfold WF, QR. simpl.
+  repeat split; try assumption; try constructor.
+  - apply parity_ok_iff. rewrite map_length. split; [|intros a []].
+    intros j Hj. simpl. 
+    assert (Hn : nth j (map (fun _ : sdef => 0%N) sch) 0%N = 0%N).
+    { clear. revert j. induction sch as [|d r IH]; intros j; destruct j; simpl; auto. }
+    rewrite Hn. reflexivity.
+  - apply map_length.
+Qed.
+
+(* (1) code 80 never occurs *)
+Lemma run_parity_lemma : forall fuel sch tp hl ex bs ql acts cs,
+  refs_ok sch = true -> ex < length sch ->
+  calls_in_range sch cs = true -> actions_in_range sch acts = true ->
+  forallb (fun c => parity_ok (co_time c) (co_active c))
+          (tr_calls (run fuel (init_st sch tp hl ex bs ql acts) cs)) = true.
+Proof.
+  intros fuel sch tp hl ex bs ql acts cs Hrefs Hex Hcs Hacts.
+  destruct (run_calls_top_WF sch ex Hex Hrefs fuel cs (init_st sch tp hl ex bs ql acts) [])
+    as [_ Hobs]; [apply init_st_WF; exact Hacts | exact Hcs | constructor |].
+  unfold run.
+  destruct (run_calls_top fuel (init_st sch tp hl ex bs ql acts) cs []) as [[s1 obs] ok].
+  simpl in *. apply forallb_forall. rewrite Forall_forall in Hobs. exact Hobs.
+Qed.
+
+(* ================================================================== *)
+(* 21. lift (2): the per-record clauses of Spec/C08.v over whole runs  *)
+(* ================================================================== *)
+
+(* ---- list facts: slices of an indexed log ---- *)
+
+Lemma combine_seq_app : forall (A : Type) (l1 l2 : list A) a,
+  combine (seq a (length l1 + length l2)) (l1 ++ l2)
+  = combine (seq a (length l1)) l1 ++ combine (seq (a + length l1) (length l2)) l2.
+Proof.
+  intros A l1. induction l1 as [|x r IH]; intros l2 a; simpl.
+  - rewrite Nat.add_0_r. reflexivity.
+  - f_equal. rewrite IH. f_equal. f_equal. f_equal. lia.
+Qed.
+
+Lemma combine_seq_length : forall (A : Type) (l : list A) a,
+  length (combine (seq a (length l)) l) = length l.
+Proof. intros A l a. rewrite combine_length, seq_length. apply Nat.min_id. Qed.
+
+Lemma tx_entries_stable : forall hl more t,
+  tx_hto t <= length hl -> tx_entries (hl ++ more) t = tx_entries hl t.
+Proof.
+  intros hl more t Hto. unfold tx_entries, slice.
+  rewrite app_length, combine_seq_app.
+  set (A := combine (seq 0 (length hl)) hl).
+  set (B := combine (seq (0 + length hl) (length more)) more).
+  assert (HA : length A = length hl) by apply combine_seq_length.
+  rewrite skipn_app, firstn_app.
+  replace (tx_hto t - tx_hfrom t - length (skipn (tx_hfrom t) A)) with 0
+    by (rewrite skipn_length; lia).
+  simpl. apply app_nil_r.
+Qed.
+
+Lemma tx_entries_new : forall hl ents t,
+  tx_hfrom t = length hl -> tx_hto t = length hl + length ents ->
+  tx_entries (hl ++ ents) t = combine (seq (length hl) (length ents)) ents.
+Proof.
+  intros hl ents t Hf Ht. unfold tx_entries, slice.
+  rewrite app_length, combine_seq_app.
+  set (A := combine (seq 0 (length hl)) hl).
+  assert (HA : length A = length hl) by apply combine_seq_length.
+  rewrite Hf, Ht, skipn_app, <- HA, skipn_all, Nat.sub_diag. simpl.
+  replace (length A + length ents - length A) with (length ents) by lia.
+  rewrite HA. apply firstn_all2. rewrite combine_seq_length. lia.
+Qed.
+
+Lemma find_combine_seq : forall (A : Type) (q : nat -> bool) (l : list A) a i h,
+  find (fun e => q (fst e)) (combine (seq a (length l)) l) = Some (i, h) ->
+  exists j, i = a + j /\ nth_error l j = Some h /\ q (a + j) = true /\
+            forall j', j' < j -> q (a + j') = false.
+Proof.
+  intros A q l. induction l as [|x r IH]; intros a i h Hf; simpl in Hf; [discriminate|].
+  destruct (q a) eqn:Eq.
+  - inversion Hf; subst. exists 0. rewrite Nat.add_0_r.
+    split; [reflexivity|]. split; [reflexivity|]. split; [exact Eq | intros j' Hj'; lia].
+  - apply IH in Hf. destruct Hf as [j [Hi [Hn [Hq Hfirst]]]].
+    exists (S j). split; [lia|]. split; [exact Hn|].
+    split; [replace (a + S j) with (S a + j) by lia; exact Hq|].
+    intros j' Hj'. destruct j' as [|j'']; [rewrite Nat.add_0_r; exact Eq|].
+    replace (a + S j'') with (S a + j'') by lia. apply Hfirst. lia.
+Qed.
+
+Lemma existsb_combine_seq : forall (A : Type) (q : nat -> bool) (l : list A) a,
+  existsb (fun e => q (fst e)) (combine (seq a (length l)) l) = true ->
+  exists j, j < length l /\ q (a + j) = true.
+Proof.
+  intros A q l. induction l as [|x r IH]; intros a He; simpl in He; [discriminate|].
+  apply orb_true_iff in He. destruct He as [He|He].
+  - exists 0. rewrite Nat.add_0_r. split; [simpl; lia | exact He].
+  - apply IH in He. destruct He as [j [Hj Hq]]. exists (S j).
+    split; [simpl; lia|]. replace (a + S j) with (S a + j) by lia. exact Hq.
+Qed.
+
+Lemma nth_skipn_add : forall (A : Type) (d : A) a j (l : list A),
+  nth (a + j) l d = nth j (skipn a l) d.
+Proof.
+  intros A d a. induction a as [|a IH]; intros j l; [reflexivity|].
+  destruct l as [|x r]; [destruct j; reflexivity|]. simpl. apply IH.
+Qed.
+
+Lemma clock_eqb_refl : forall c, clock_eqb c c = true.
+Proof.
+  induction c as [|x r IH]; simpl; [reflexivity|]. rewrite N.eqb_refl. exact IH.
+Qed.
+
+Lemma set_eqb_ext : forall a b, (forall z, In z a <-> In z b) -> set_eqb a b = true.
+Proof.
+  intros a b H. unfold set_eqb, every. apply andb_true_iff.
+  split; apply forallb_forall; intros x Hx; apply mem_In; apply H; exact Hx.
+Qed.
+
+Lemma active_of_clock_In : forall cl act,
+  parity_ok cl act = true -> forall z, In z (active_of_clock cl) <-> In z act.
+Proof.
+  intros cl act Hp z. apply parity_ok_iff in Hp. destruct Hp as [Hodd Hr].
+  unfold active_of_clock. rewrite filter_In, in_seq. split.
+  - intros [[_ Hz] Ho]. simpl in Hz. rewrite (Hodd z Hz) in Ho. apply mem_In. exact Ho.
+  - intros Hz. pose proof (Hr z Hz) as Hlt. split; [simpl; lia|].
+    rewrite (Hodd z Hlt). apply mem_In. exact Hz.
+Qed.
+
+(* ---- tx_fault_codes, cut in the part that looks at the next record
+        (code 84) and the part that does not (86, 89x) ---- *)
+
+Definition is_exc_rec (ex : nat) (n : txrec) : bool :=
+  mut_type_eqb (tx_type n) MAdd && list_eqb (tx_called n) [ex]
+  && negb (tx_auto n) && N.eqb (tx_qtick n) 0.
+
+Definition is_exc_mut (ex : nat) (m : mutation) : bool :=
+  mut_type_eqb (mu_type m) MAdd && list_eqb (mu_called m) [ex]
+  && negb (mu_auto m) && N.eqb (mu_qtick m) 0.
+
+Definition needs_exc_es (ex : nat) (acts : list haction) (es : list (nat * hlentry))
+  (t : txrec) : bool :=
+  match first_fault acts es with
+  | None => false
+  | Some _ => existsb (fun e => is_panic (fault_at acts (fst e))) es
+              && negb (mem ex (tx_called t))
+  end.
+
+Definition codesB_es (sc : schema) (topo : list nat) (acts : list haction)
+  (es : list (nat * hlentry)) (t : txrec) : list N :=
+  match first_fault acts es with
+  | None => []
+  | Some (j, h) =>
+    let k := hl_key h in
+    if negb (is_final_key k) then
+      if tx_auto t then []
+      else if negb (tx_accepted t) && clock_eqb (tx_before t) (tx_mach_after t) then []
+           else [86%N]
+    else
+      let before := tx_active_before t in
+      let exits := sort_states sc topo (diff before (tx_target t)) in
+      let enters := filter (fun x => negb (mem x before)
+                              || (s_multi (sget sc x) && mem x (tx_called t))) (tx_target t) in
+      let ambiguous := filter (fun x => mem x before) enters in
+      let expected :=
+        match k with
+        | HState x => diff (tx_target t) (from_state x enters)
+        | HEnd x => diff (tx_target t) enters ++ from_state x exits
+        | _ => tx_target t
+        end in
+      if set_eqb (diff expected ambiguous)
+                 (diff (active_of_clock (tx_mach_after t)) ambiguous) then []
+      else match k with HState _ => [890%N] | HEnd _ => [891%N] | _ => [892%N] end
+  end.
+
+Lemma tx_fault_codes_split : forall sc topo ex acts hl t next,
+  tx_fault_codes sc topo ex acts hl t next
+  = (if needs_exc_es ex acts (tx_entries hl t) t then
+       match next with
+       | Some n => if is_exc_rec ex n then [] else [84%N]
+       | None => [84%N]
+       end
+     else [])
+    ++ codesB_es sc topo acts (tx_entries hl t) t.
+Proof.
+  intros sc topo ex acts hl t next.
+  unfold tx_fault_codes, needs_exc_es, codesB_es, is_exc_rec.
+  destruct (first_fault acts (tx_entries hl t)) as [[j h]|]; reflexivity.
+Qed.
+
+Lemma list_eqb_refl : forall l, list_eqb l l = true.
+Proof. induction l as [|x r IH]; simpl; [reflexivity|]. rewrite Nat.eqb_refl. exact IH. Qed.
+
+Lemma is_exc_mut_exc_mut : forall ex, is_exc_mut ex (exc_mut ex) = true.
+Proof. intros ex. unfold is_exc_mut, exc_mut. simpl. rewrite Nat.eqb_refl. reflexivity. Qed.
+
+(* ---- one transition: its record passes the clauses 86 / 89x, and a panic
+        that asks for Exception leaves it at the front of the queue ---- *)
+
+Section RecStep.
+  Variable sch : schema.
+  Variable tp : list nat.
+  Variable ex : nat.
+  Variable acts0 : list haction.
+  Hypothesis ex_in_range : ex < length sch.
+  Hypothesis refs : refs_ok sch = true.
+
+  Lemma run_tx_rec_codes : forall s mu s' r,
+    flags_ok s -> aligned acts0 s -> topo s = tp -> WF sch ex s ->
+    states_in_range sch (mu_called mu) = true ->
+    run_tx s mu = (s', r) ->
+    exists rec, txs s' = rec :: txs s /\
+      (is_exc_mut ex mu = true -> is_exc_rec ex rec = true) /\
+      tx_hto rec = length (hlog s') /\
+      codesB_es sch tp acts0 (tx_entries (rev (hlog s')) rec) rec = [] /\
+      (needs_exc_es ex acts0 (tx_entries (rev (hlog s')) rec) rec = true ->
+       hd_error (queue s') = Some (exc_mut ex)).
+  Proof.
+    intros s mu s' r [F1 [F2 F3]] Hal Htopo HW Hmu Hr.
+    destruct HW as [[Hsc [Hexc _]] [Hpar [Hnd Hlen]]].
+    destruct (run_tx_record_lemma s mu s' r F1 F2 F3 Hr)
+      as [rec [Htx [Rty [Rcalled [Rauto [Rcheck [Rq [Rfrom [Rto Rmach]]]]]]]]].
+    destruct (run_tx_book_gen s mu s' r Hr) as [ents [B1 B2]].
+    assert (Hchron : rev (hlog s') = rev (hlog s) ++ ents).
+    { rewrite B1, rev_app_distr, rev_involutive. reflexivity. }
+    set (a := length (hlog s)).
+    assert (Hes : tx_entries (rev (hlog s')) rec = combine (seq a (length ents)) ents).
+    { rewrite Hchron. unfold a. rewrite <- (rev_length (hlog s)). apply tx_entries_new.
+      - rewrite rev_length. exact Rfrom.
+      - rewrite Rto, B1, app_length, !rev_length. lia. }
+    assert (Hfa : forall j, fault_at acts0 (a + j) = fault_at (actions s) j).
+    { intros j. unfold fault_at, a. rewrite nth_skipn_add. unfold aligned in Hal.
+      rewrite <- Hal. reflexivity. }
+    assert (Hents : forall ents', hlog s' = rev ents' ++ hlog s -> ents' = ents).
+    { intros ents' H'. rewrite B1 in H'. apply app_inv_tail in H'. apply rev_inj in H'.
+      symmetry. exact H'. }
+    assert (Hrec : forall rec', txs s' = rec' :: txs s -> rec' = rec).
+    { intros rec' H'. rewrite Htx in H'. inversion H'. reflexivity. }
+    exists rec. split; [exact Htx|]. split.
+    { unfold is_exc_mut, is_exc_rec. rewrite Rty, Rcalled, Rauto, Rq. intros H; exact H. }
+    split; [exact Rto|]. split.
+    - (* clauses 86 / 89x *)
+      rewrite Hes. unfold codesB_es.
+      destruct (first_fault acts0 (combine (seq a (length ents)) ents)) as [[i h]|] eqn:Eff;
+        [|reflexivity].
+      unfold first_fault in Eff.
+      apply (find_combine_seq _ (fun i0 => is_fault (fault_at acts0 i0))) in Eff.
+      destruct Eff as [j [Hi [Hnth [Hfault Hfirst]]]].
+      rewrite Hfa in Hfault.
+      cbv zeta. destruct (is_final_key (hl_key h)) eqn:Ek; cbn [negb].
+      + (* the first fault is in a final handler: the rollback *)
+        destruct (final_rollback_first_step_lemma s mu s' r F1 F2 F3 Hr)
+          as [ents' [B1' [_ Hroll]]].
+        apply Hents in B1'. subst ents'.
+        assert (Hfirst' : forall j', j' < j -> fault_at (actions s) j' = FNone).
+        { intros j' Hj'. specialize (Hfirst j' Hj'). rewrite Hfa in Hfirst.
+          destruct (fault_at (actions s) j'); [reflexivity | discriminate | discriminate]. }
+        destruct (Hroll j h Hnth Hfault Hfirst' Ek)
+          as [_ [rec' [Htx' [_ [Rbef [_ [_ [_ Hm]]]]]]]].
+        apply Hrec in Htx'. subst rec'.
+        destruct (fault_parity_step_lemma s mu) as [P1 _]; try assumption.
+        { rewrite Hsc. exact refs. }
+        { rewrite Hsc. exact Hlen. }
+        { rewrite Hsc. apply states_in_range_iff. exact Hmu. }
+        rewrite Hr in P1. simpl fst in P1.
+        rewrite Hsc, Htopo, <- Rbef, <- Rcalled in Hm.
+        match goal with |- (if ?b then _ else _) = _ => assert (Hset : b = true) end.
+        { apply set_eqb_ext. intros z. rewrite !diff_In, Rmach.
+          rewrite (active_of_clock_In _ _ P1 z).
+          destruct (hl_key h) as [x|x|x|b1 b2| |x|x|] eqn:Ekh; try discriminate Ek.
+          - rewrite in_app_iff, diff_In, (Hm z). tauto.
+          - rewrite diff_In, (Hm z). tauto.
+          - rewrite (Hm z). tauto. }
+        rewrite Hset. reflexivity.
+      + (* the first fault is in the negotiation *)
+        destruct (tx_auto rec) eqn:Eauto; [reflexivity|].
+        assert (Hna : mu_auto mu = false) by congruence.
+        destruct (negotiation_fault_no_change_gen_lemma s mu s' r F1 F2 F3 Hna Hr)
+          as [ents' [B1' [_ Hneg]]].
+        apply Hents in B1'. subst ents'.
+        destruct Hneg as [_ [_ [_ [rec' [Htx' [Racc [Rb [Rm _]]]]]]]].
+        { exists j, h. split; [exact Hnth|]. split; [exact Hfault | exact Ek]. }
+        apply Hrec in Htx'. subst rec'.
+        rewrite Racc, Rb, Rm, clock_eqb_refl. reflexivity.
+    - (* code 84: the pending Add[Exception] *)
+      rewrite Hes. unfold needs_exc_es.
+      destruct (first_fault acts0 (combine (seq a (length ents)) ents)); [|discriminate].
+      intros Hne. apply andb_true_iff in Hne. destruct Hne as [Hp Hm].
+      apply (existsb_combine_seq _ (fun i0 => is_panic (fault_at acts0 i0))) in Hp.
+      destruct Hp as [j [Hj Hp]]. rewrite Hfa in Hp.
+      apply negb_true_iff in Hm. rewrite Rcalled, <- Hexc in Hm.
+      destruct (panic_makes_exception_step_lemma s mu s' r F1 F2 F3 Hr Hm) as [Hq _].
+      + exists j. split.
+        * rewrite B1, app_length, rev_length. lia.
+        * destruct (fault_at (actions s) j); [discriminate | reflexivity | discriminate].
+      + rewrite Hq, Hexc. reflexivity.
+  Qed.
+End RecStep.
+
+Lemma run_tx_topo : forall s mu, topo (fst (run_tx s mu)) = topo s.
+Proof.
+  intros s mu. destruct (run_tx s mu) as [s' r] eqn:E. simpl.
+  destruct (run_tx_P (fun x _ => topo x = topo s)) with (s := s) (mu := mu) (s' := s') (r := r)
+    as [_ HP]; try assumption; try reflexivity.
+  - intros x t k x1 t1 ok _ HP Hh. apply handle_static in Hh. destruct Hh as [_ Ht]. congruence.
+  - intros x t k x1 t1 ok _ HP Hh. apply handle_static in Hh. destruct Hh as [_ Ht]. congruence.
+  - intros x t tg HP; exact HP.
+  - intros x t a b c HP; exact HP.
+  - intros x t e HP; exact HP.
+  - intros x t r0 HP; exact HP.
+  - intros x t cl ac HP; exact HP.
+  - intros x t k HP; exact HP.
+  - intros x t HP _. unfold prepend_auto.
+    destruct (auto_candidates (sc x) (active x)); exact HP.
+Qed.
+
+(* ---- the records of a run, newest first ---- *)
+
+Section RecInv.
+  Variable sch : schema.
+  Variable tp : list nat.
+  Variable ex : nat.
+  Variable acts0 : list haction.
+  Hypothesis ex_in_range : ex < length sch.
+  Hypothesis refs : refs_ok sch = true.
+
+  (* [b]: the transition that follows the newest record is Add[Exception] *)
+  Fixpoint recs_ok (hl : list hlentry) (l : list txrec) (b : bool) : Prop :=
+    match l with
+    | [] => True
+    | t :: older =>
+      tx_hto t <= length hl /\
+      codesB_es sch tp acts0 (tx_entries hl t) t = [] /\
+      (needs_exc_es ex acts0 (tx_entries hl t) t = true -> b = true) /\
+      recs_ok hl older (is_exc_rec ex t)
+    end.
+
+  Lemma recs_ok_mono : forall hl l b b',
+    recs_ok hl l b -> (b = true -> b' = true) -> recs_ok hl l b'.
+  Proof.
+    intros hl l b b' H Hb. destruct l as [|t older]; [exact I|].
+    destruct H as [H1 [H2 [H3 H4]]]. simpl.
+    split; [exact H1|]. split; [exact H2|]. split; [|exact H4].
+    intros Hn. apply Hb. apply H3. exact Hn.
+  Qed.
+
+  Lemma recs_ok_grow : forall hl more l b,
+    recs_ok hl l b -> recs_ok (hl ++ more) l b.
+  Proof.
+    intros hl more l. induction l as [|t older IH]; intros b H; [exact I|].
+    destruct H as [H1 [H2 [H3 H4]]]. simpl.
+    rewrite (tx_entries_stable hl more t H1).
+    split; [rewrite app_length; lia|]. split; [exact H2|]. split; [exact H3|].
+    apply IH. exact H4.
+  Qed.
+
+  Fixpoint codes_with (hl : list hlentry) (l : list txrec) (fn : option txrec) : list N :=
+    match l with
+    | [] => []
+    | t :: r => tx_fault_codes sch tp ex acts0 hl t
+                  (match r with [] => fn | n :: _ => Some n end)
+                ++ codes_with hl r fn
+    end.
+
+  Lemma txs_fault_codes_with : forall hl l,
+    txs_fault_codes sch tp ex acts0 hl l = codes_with hl l None.
+  Proof.
+    intros hl l. induction l as [|t r IH]; [reflexivity|].
+    simpl. rewrite IH. destruct r; reflexivity.
+  Qed.
+
+  Lemma codes_with_snoc : forall hl l t fn,
+    codes_with hl (l ++ [t]) fn
+    = codes_with hl l (Some t) ++ tx_fault_codes sch tp ex acts0 hl t fn.
+  Proof.
+    intros hl l t fn. induction l as [|x r IH].
+    - simpl. rewrite app_nil_r. reflexivity.
+    - change ((x :: r) ++ [t]) with (x :: (r ++ [t])).
+      cbn [codes_with]. rewrite IH, <- app_assoc. f_equal.
+      destruct r; reflexivity.
+  Qed.
+
+  Lemma recs_codes : forall hl l b fn,
+    recs_ok hl l b ->
+    (b = true -> exists n, fn = Some n /\ is_exc_rec ex n = true) ->
+    codes_with hl (rev l) fn = [].
+  Proof.
+    intros hl l. induction l as [|t older IH]; intros b fn H Hb; [reflexivity|].
+    destruct H as [_ [H2 [H3 H4]]].
+    change (rev (t :: older)) with (rev older ++ [t]). rewrite codes_with_snoc.
+    rewrite (IH (is_exc_rec ex t) (Some t) H4).
+    2:{ intros Ht. exists t. split; [reflexivity | exact Ht]. }
+    rewrite tx_fault_codes_split, H2.
+    destruct (needs_exc_es ex acts0 (tx_entries hl t) t) eqn:En; [|reflexivity].
+    destruct (Hb (H3 eq_refl)) as [n [Hfn Hn]]. subst fn. rewrite Hn. reflexivity.
+  Qed.
+
+  Definition front_exc (s : st) : bool :=
+    match queue s with m :: _ => is_exc_mut ex m | [] => false end.
+
+  Definition GI (s : st) : Prop :=
+    flags_ok s /\ aligned acts0 s /\ topo s = tp /\ WF sch ex s
+    /\ recs_ok (rev (hlog s)) (txs s) (front_exc s).
+
+  (* one transition popped from the queue *)
+  Lemma run_tx_GI : forall s mu,
+    flags_ok s -> aligned acts0 s -> topo s = tp -> WF sch ex s ->
+    recs_ok (rev (hlog s)) (txs s) (is_exc_mut ex mu) ->
+    states_in_range sch (mu_called mu) = true ->
+    GI (fst (run_tx s mu)).
+  Proof.
+    intros s mu Hf Hal Htp HW Hrecs Hmu.
+    pose proof (run_tx_flags_lemma s mu Hf) as Hf'.
+    pose proof (run_tx_aligned acts0 s mu Hal) as Hal'.
+    pose proof (run_tx_topo s mu) as Htp'.
+    pose proof (run_tx_WF sch ex ex_in_range refs s mu HW Hmu) as HW'.
+    destruct (run_tx s mu) as [s' r] eqn:Hr. simpl fst in *.
+    split; [exact Hf'|]. split; [exact Hal'|]. split; [congruence|]. split; [exact HW'|].
+    destruct (run_tx_rec_codes sch tp ex acts0 ex_in_range refs s mu s' r Hf Hal Htp HW Hmu Hr)
+      as [rec [Htx [Hexc [Hto [HB HA]]]]].
+    destruct (run_tx_book_gen s mu s' r Hr) as [ents [B1 _]].
+    rewrite Htx. cbn [recs_ok].
+    split; [rewrite rev_length; lia|]. split; [exact HB|]. split.
+    - intros Hn. apply HA in Hn. unfold front_exc.
+      destruct (queue s') as [|m q]; [discriminate|]. simpl in Hn. inversion Hn.
+      apply is_exc_mut_exc_mut.
+    - rewrite B1, rev_app_distr, rev_involutive.
+      apply recs_ok_grow. eapply recs_ok_mono; [exact Hrecs | exact Hexc].
+  Qed.
+
+  Lemma GI_same : forall s s', GI s ->
+    same_flags s s' -> hlog s' = hlog s -> actions s' = actions s -> topo s' = topo s ->
+    WF sch ex s' -> txs s' = txs s -> (front_exc s = true -> front_exc s' = true) -> GI s'.
+  Proof.
+    intros s s' [G1 [G2 [G3 [_ G5]]]] Hf Hh Ha Ht HW Htx Hfr. unfold GI.
+    split; [eapply flags_ok_same; eassumption|].
+    split; [unfold aligned in *; rewrite Hh, Ha; exact G2|].
+    split; [congruence|]. split; [exact HW|].
+    rewrite Hh, Htx. eapply recs_ok_mono; [exact G5 | exact Hfr].
+  Qed.
+
+  Lemma drain_GI : forall fuel s first, GI s -> GI (fst (fst (drain fuel s first))).
+  Proof.
+    induction fuel as [|f IH]; intros s first HG; simpl; [exact HG|].
+    destruct (crashed s || hung s); [exact HG|].
+    destruct (queue s) as [|mu rest] eqn:Eq.
+    { pose proof HG as [_ [_ [_ [HW _]]]].
+      eapply GI_same; [exact HG| | | | | | |]; try reflexivity.
+      - repeat split.
+      - eapply WF_same_mach; [exact HW| | |]; try reflexivity.
+        destruct HW as [HQ _]. eapply QR_same; [exact HQ| | | |]; reflexivity.
+      - unfold front_exc. simpl. rewrite Eq. intros H; exact H. }
+    match goal with |- context [run_tx ?x mu] => set (s1 := x) end.
+    destruct HG as [G1 [G2 [G3 [G4 G5]]]].
+    assert (Hmu : states_in_range sch (mu_called mu) = true /\
+                  queue_in_range sch rest = true).
+    { destruct G4 as [[_ [_ [H3 _]]] _]. rewrite Eq in H3. simpl in H3.
+      apply andb_true_iff in H3. exact H3. }
+    destruct Hmu as [Hmu Hrest].
+    assert (Hs1 : hlog s1 = hlog s /\ actions s1 = actions s /\ topo s1 = topo s /\
+                  txs s1 = txs s /\ same_flags s s1 /\ clock s1 = clock s /\
+                  active s1 = active s /\ sc s1 = sc s /\ exc s1 = exc s /\ queue s1 = rest).
+    { unfold s1. destruct (0 <? mu_qtick mu)%N; repeat split. }
+    destruct Hs1 as [A1 [A2 [A3 [A4 [A5 [A6 [A7 [A8 [A9 A10]]]]]]]]].
+    assert (HW1 : WF sch ex s1).
+    { eapply WF_same_mach; [exact G4 | | exact A6 | exact A7].
+      destruct G4 as [[Q1 [Q2 [_ Q4]]] _]. unfold QR. rewrite A8, A9, A10, A2.
+      repeat split; assumption. }
+    assert (HG2 : GI (fst (run_tx s1 mu))).
+    { apply run_tx_GI; try assumption.
+      - eapply flags_ok_same; eassumption.
+      - unfold aligned in *. rewrite A1, A2. exact G2.
+      - congruence.
+      - rewrite A1, A4. unfold front_exc in G5. rewrite Eq in G5. exact G5. }
+    destruct (run_tx s1 mu) as [s2 r]. simpl in HG2.
+    apply IH. exact HG2.
+  Qed.
+
+  Lemma drain_queue_empty : forall fuel s first s' r,
+    GI s -> drain fuel s first = (s', r, true) -> queue s' = [].
+  Proof.
+    intros fuel s first s' r HG Hd.
+    pose proof (drain_GI fuel s first HG) as HG'. rewrite Hd in HG'. simpl in HG'.
+    destruct HG' as [[Fc [_ Fh]] _].
+    eapply machine_lives_on_lemma; eassumption.
+  Qed.
+
+  Lemma process_queue_GI : forall fuel s,
+    GI s -> GI (fst (fst (process_queue fuel s))) /\
+    (snd (process_queue fuel s) = true -> queue (fst (fst (process_queue fuel s))) = []).
+  Proof.
+    intros fuel s HG. unfold process_queue.
+    destruct (queue s) as [|m q] eqn:Eq; [split; [exact HG | intros _; exact Eq]|].
+    pose proof (drain_GI fuel s None HG) as H.
+    pose proof (drain_queue_empty fuel s None) as Hq.
+    destruct (drain fuel s None) as [[s1 first] ok]. simpl in *.
+    split; [exact H|]. intros Hok. subst ok. eapply Hq; [exact HG | reflexivity].
+  Qed.
+
+  Lemma queue_mutation_GI : forall s mt states args,
+    GI s -> states_in_range sch states = true -> GI (fst (queue_mutation s mt states args)).
+  Proof.
+    intros s mt states args HG Hr.
+    pose proof HG as [_ [_ [_ [HW _]]]].
+    pose proof (queue_mutation_core s mt states args) as [C1 [C2 [_ [_ [_ [C6 [_ [C8 _]]]]]]]].
+    eapply GI_same; [exact HG | apply queue_mutation_flags | exact C1 | exact C2 | exact C8
+                    | apply (queue_mutation_WF sch ex s mt states args HW Hr) | exact C6 |].
+    unfold queue_mutation, front_exc.
+    destruct (negb _ && negb args && is_dup _ _ _); simpl; [intros H; exact H|].
+    destruct (queue s); simpl; [discriminate | intros H; exact H].
+  Qed.
+
+  Lemma queue_mutation_queue : forall s mt states args,
+    snd (queue_mutation s mt states args) = 0%N ->
+    queue (fst (queue_mutation s mt states args)) = queue s.
+  Proof.
+    intros s mt states args. unfold queue_mutation.
+    destruct (negb _ && negb args && is_dup _ _ _); simpl; [reflexivity|].
+    intros H. exfalso. destruct (qpending s); destruct (qtick s); simpl in H; lia.
+  Qed.
+
+  Lemma top_mutation_GI : forall fuel s mt states args,
+    GI s -> queue s = [] -> states_in_range sch states = true ->
+    GI (fst (fst (top_mutation fuel s mt states args))) /\
+    (snd (top_mutation fuel s mt states args) = true ->
+     queue (fst (fst (top_mutation fuel s mt states args))) = []).
+  Proof.
+    intros fuel s mt states args HG Hq Hr. unfold top_mutation.
+    pose proof (queue_mutation_GI s mt states args HG Hr) as H1.
+    pose proof (queue_mutation_queue s mt states args) as Hq1.
+    destruct (queue_mutation s mt states args) as [s1 tick]. simpl in H1, Hq1.
+    destruct (tick =? 0)%N eqn:Et.
+    - apply N.eqb_eq in Et. simpl. split; [exact H1|]. intros _. rewrite Hq1; assumption.
+    - pose proof (process_queue_GI fuel s1 H1) as H.
+      destruct (process_queue fuel s1) as [[s2 r] ok]. exact H.
+  Qed.
+
+  Lemma prepend_mut_GI : forall s mu,
+    GI s -> queue s = [] -> states_in_range sch (mu_called mu) = true ->
+    GI (prepend_mut s mu).
+  Proof.
+    intros s mu HG Hq Hr. pose proof HG as [_ [_ [_ [HW _]]]].
+    eapply GI_same; [exact HG| | | | | | |]; try reflexivity.
+    - repeat split.
+    - apply prepend_mut_WF; assumption.
+    - unfold front_exc. rewrite Hq. discriminate.
+  Qed.
+
+  Lemma top_api_GI : forall fuel s c,
+    GI s -> queue s = [] -> states_in_range sch (ac_states c) = true ->
+    GI (fst (fst (top_api fuel s c))) /\
+    (snd (top_api fuel s c) = true -> queue (fst (fst (top_api fuel s c))) = []).
+  Proof.
+    intros fuel s c HG Hq Hr.
+    assert (Hid : GI s /\ (true = true -> queue s = [])) by (split; [exact HG | intros _; exact Hq]).
+    unfold top_api, top_add, top_remove. destruct (ac_kind c).
+    - destruct (limit_hit s && _); [exact Hid | apply top_mutation_GI; assumption].
+    - destruct (limit_hit s && _); [exact Hid | apply top_mutation_GI; assumption].
+    - destruct (limit_hit s); [exact Hid | apply top_mutation_GI; assumption].
+    - destruct (mach_is s (ac_states c)).
+      + destruct (limit_hit s && _); [exact Hid | apply top_mutation_GI; assumption].
+      + destruct (limit_hit s && _); [exact Hid | apply top_mutation_GI; assumption].
+    - destruct (limit_hit s); [exact Hid|].
+      pose proof HG as [_ [_ [_ [HW _]]]].
+      assert (HG1 : GI (set_fault_flags s (loop_dead s) (hung s) 1)).
+      { eapply GI_same; [exact HG| | | | | | |]; try reflexivity.
+        - repeat split.
+        - eapply WF_same_mach; [exact HW| | |]; try reflexivity.
+          destruct HW as [HQ _]. eapply QR_same; [exact HQ| | | |]; reflexivity.
+        - intros H; exact H. }
+      match goal with |- context [if ?b then _ else _] => destruct b end.
+      + split; [exact HG1 | intros _; exact Hq].
+      + apply top_mutation_GI; [exact HG1 | exact Hq |].
+        destruct HW as [HQ _]. apply (exc_pair_in_range sch ex ex_in_range s HQ).
+    - apply process_queue_GI. apply prepend_mut_GI; assumption.
+    - apply process_queue_GI. apply prepend_mut_GI; assumption.
+  Qed.
+
+  Lemma run_calls_top_GI : forall fuel cs s acc s' obs,
+    GI s -> queue s = [] -> calls_in_range sch cs = true ->
+    run_calls_top fuel s cs acc = (s', obs, true) -> GI s' /\ queue s' = [].
+  Proof.
+    intros fuel cs. induction cs as [|c r IH]; intros s acc s' obs HG Hq Hr Hrun; simpl in Hrun.
+    - inversion Hrun; subst. split; assumption.
+    - simpl in Hr. apply andb_true_iff in Hr. destruct Hr as [Hc Hr].
+      destruct (crashed s || hung s); [inversion Hrun; subst; split; assumption|].
+      pose proof (top_api_GI fuel s c HG Hq Hc) as [H1 H2].
+      destruct (top_api fuel s c) as [[s1 res] ok]. simpl in H1, H2.
+      destruct (crashed s1 || hung s1).
+      { inversion Hrun; subst. split; [exact H1 | apply H2; reflexivity]. }
+      destruct ok; [|inversion Hrun].
+      eapply IH; [exact H1 | apply H2; reflexivity | exact Hr | exact Hrun].
+  Qed.
+End RecInv.
+
+(* (2) no per-record code for any script, given the range conditions and fuel *)
+Lemma run_txs_fault_codes_lemma : forall fuel sch tp hl ex bs ql acts cs,
+  refs_ok sch = true -> ex < length sch ->
+  calls_in_range sch cs = true -> actions_in_range sch acts = true ->
+  let tr := run fuel (init_st sch tp hl ex bs ql acts) cs in
+  tr_fuel_ok tr = true ->
+  txs_fault_codes sch tp ex acts (tr_hlog tr) (tr_txs tr) = [].
+Proof.
+  intros fuel sch tp hl ex bs ql acts cs Hrefs Hex Hcs Hacts tr Hfuel.
+  unfold tr, run in *.
+  destruct (run_calls_top fuel (init_st sch tp hl ex bs ql acts) cs []) as [[s1 obs] ok] eqn:E.
+  simpl in Hfuel. subst ok. simpl.
+  assert (HG0 : GI sch tp ex acts (init_st sch tp hl ex bs ql acts)).
+  { split; [repeat split|]. split; [reflexivity|]. split; [reflexivity|].
+    split; [apply init_st_WF; exact Hacts | exact I]. }
+  destruct (run_calls_top_GI sch tp ex acts Hex Hrefs fuel cs _ [] s1 obs HG0 eq_refl Hcs E)
+    as [[_ [_ [_ [_ Hrecs]]]] Hq].
+  rewrite txs_fault_codes_with.
+  eapply recs_codes; [exact Hrecs|].
+  unfold front_exc. rewrite Hq. discriminate.
+Qed.
+
+(* (3) the whole property *)
+Lemma c08_holds_lemma : forall fuel sch tp hl ex bs ql acts cs interr,
+  refs_ok sch = true -> ex < length sch ->
+  calls_in_range sch cs = true -> actions_in_range sch acts = true ->
+  let tr := run fuel (init_st sch tp hl ex bs ql acts) cs in
+  tr_fuel_ok tr = true ->
+  count_stalls acts (length (tr_hlog tr)) <= interr ->
+  c08_codes sch tp ex acts interr tr = [].
+Proof.
+  intros fuel sch tp hl ex bs ql acts cs interr Hrefs Hex Hcs Hacts tr Hfuel Hst.
+  unfold c08_codes.
+  destruct (run_never_crashes_lemma fuel sch tp hl ex bs ql acts cs) as [Hc Hh].
+  fold tr in Hc, Hh. rewrite Hc, Hh.
+  pose proof (run_parity_lemma fuel sch tp hl ex bs ql acts cs Hrefs Hex Hcs Hacts) as Hp.
+  fold tr in Hp. rewrite Hp.
+  pose proof (run_txs_fault_codes_lemma fuel sch tp hl ex bs ql acts cs Hrefs Hex Hcs Hacts Hfuel)
+    as Ht. fold tr in Ht. rewrite Ht.
+  apply Nat.leb_le in Hst. rewrite Hst. reflexivity.
+Qed.
+
+(* the separate clauses *)
+Lemma run_no_record_codes_lemma : forall fuel sch tp hl ex bs ql acts cs c,
+  refs_ok sch = true -> ex < length sch ->
+  calls_in_range sch cs = true -> actions_in_range sch acts = true ->
+  let tr := run fuel (init_st sch tp hl ex bs ql acts) cs in
+  tr_fuel_ok tr = true ->
+  ~ In c (txs_fault_codes sch tp ex acts (tr_hlog tr) (tr_txs tr)).
+Proof.
+  intros fuel sch tp hl ex bs ql acts cs c Hrefs Hex Hcs Hacts tr Hfuel.
+  unfold tr. rewrite (run_txs_fault_codes_lemma fuel sch tp hl ex bs ql acts cs Hrefs Hex Hcs Hacts Hfuel).
+  intros [].
+Qed.
+
+(* a panic in the State handler of 1 (first call), a panic in the Enter
+   handler of 2 (second call) *)
+Definition ex_run_bs : list (list hkey) := [[HState 1; HEnter 2]].
+Definition ex_run_acts : list haction := [ex_act FPanic; ex_act FPanic].
+Definition ex_run_cs : list api_call :=
+  [ {| ac_kind := KAdd; ac_states := [1]; ac_args := false |};
+    {| ac_kind := KAdd; ac_states := [2]; ac_args := false |} ].
+
+Lemma c08_holds_nonvacuous_lemma :
+  let tr := run 20 (init_st ex_sch [] [] 0 ex_run_bs 100 ex_run_acts) ex_run_cs in
+  refs_ok ex_sch = true /\ 0 < length ex_sch /\
+  calls_in_range ex_sch ex_run_cs = true /\ actions_in_range ex_sch ex_run_acts = true /\
+  tr_fuel_ok tr = true /\ count_stalls ex_run_acts (length (tr_hlog tr)) <= 0 /\
+  map hl_key (tr_hlog tr) = [HState 1; HEnter 2] /\
+  fault_at ex_run_acts 0 = FPanic /\ fault_at ex_run_acts 1 = FPanic /\
+  map tx_called (tr_txs tr) = [[1]; [0]; [3]; [2]; [0]] /\
+  map tx_accepted (tr_txs tr) = [false; true; true; false; true] /\
+  c08_codes ex_sch [] 0 ex_run_acts 0 tr = [].
+Proof. vm_compute. repeat split; repeat constructor. Qed.
+
+(* without the range condition the rollback clause fails in the model: a
+   called state outside the schema is "active" without a clock slot *)
+Lemma c08_rollback_needs_range_refuted_lemma :
+  exists fuel sch tp hl ex bs ql acts cs,
+    refs_ok sch = true /\ ex < length sch /\ actions_in_range sch acts = true /\
+    calls_in_range sch cs = false /\
+    tr_fuel_ok (run fuel (init_st sch tp hl ex bs ql acts) cs) = true /\
+    let tr := run fuel (init_st sch tp hl ex bs ql acts) cs in
+    In 890%N (txs_fault_codes sch tp ex acts (tr_hlog tr) (tr_txs tr)).
+Proof.
+  exists 20, [empty_sdef; empty_sdef], [], [], 1, [[HState 0]], 100%N, [ex_act FStall],
+    [ {| ac_kind := KAdd; ac_states := [5; 0]; ac_args := false |} ].
+  vm_compute. split; [reflexivity|]. split; [repeat constructor|].
+  split; [reflexivity|]. split; [reflexivity|]. split; [reflexivity|]. left. reflexivity.
+Qed.
